@@ -1,5 +1,87 @@
+(** C05 — EVM transactions conserve NIBI and charge exactly the gas used.  Exported statements only.
+    [e] fixes signer, fee collector, the accounts of the scenario, base fee and block gas limit;
+    [env_wf]: distinct signer/collector inside a duplicate-free universe, base fee >= 0.
+    [tx_wf]: 0 <= gasUsed <= gasLimit (what the interpreter reports) and the EVM run does not touch
+    the fee collector.  [nonneg]: bank balances are >= 0.  Outcome [Stuck] = the effect script given
+    for the EVM run is not executable (never produced by the harness; refused by the checker). *)
 From Coq Require Import List Bool Arith ZArith.
+Import ListNotations.
 Require Import Nib.C05.Model Nib.C05.Spec Nib.C05.Facts Nib.C05.Proofs.
+Open Scope Z_scope.
+
+(** Fee arithmetic, all prices and limits: what the signer ends up paying (prepay - refund, both
+    truncated to unibi) is within one unibi of gasUsed x effective price, is never negative and
+    never more than the prepayment floor(gasLimit x price / 10^12). *)
+Theorem C05_net_payment_bounds :
+  forall L u p, 0 <= u <= L -> 0 <= p ->
+  WEI * net_payment L u p - WEI < u * p < WEI * net_payment L u p + WEI /\
+  0 <= net_payment L u p <= prepay L p.
+Proof. exact net_payment_bounds. Qed.
+Print Assumptions C05_net_payment_bounds.
+
+(** The whole property for one tx delivered to any funded state: supply moves exactly with the
+    balances of the scenario accounts and never upwards; per outcome the clauses of [P]
+    (rejected: nothing; failed after ante / reverted: only signer -> collector, at most the
+    prepayment; executed: payment bounds, exact conservation for whole-unibi scripts, signer pays
+    net + truncated value). *)
+Theorem C05_deliver_satisfies_P :
+  forall e b t, env_wf e -> nonneg (bal b) -> tx_wf e t -> snd (deliver e b t) <> Stuck ->
+  P (mk e b t (snd (deliver e b t)) (fst (deliver e b t))).
+Proof. exact deliver_satisfies_P. Qed.
+Print Assumptions C05_deliver_satisfies_P.
+
+(** No history of EVM txs — successful, reverted, out of gas, failing after ante — increases the
+    total supply. *)
+Theorem C05_supply_never_increases :
+  forall e, env_wf e -> forall ts b, nonneg (bal b) -> Forall (tx_wf e) ts ->
+  ~ In Stuck (snd (run e b ts)) -> supply (fst (run e b ts)) <= supply b.
+Proof. exact run_supply_le. Qed.
+Print Assumptions C05_supply_never_increases.
+
+(** What leaves one account arrives at another: supply delta = sum of the balance deltas. *)
+Theorem C05_closed_system :
+  forall e, env_wf e -> forall b t, nonneg (bal b) -> tx_wf e t -> snd (deliver e b t) <> Stuck ->
+  supply (fst (deliver e b t)) - supply b =
+  sumU (bal (fst (deliver e b t))) (e_universe e) - sumU (bal b) (e_universe e).
+Proof. exact closed_system. Qed.
+Print Assumptions C05_closed_system.
+
+(** When every transfer is a whole number of unibi and nothing self-destructs to itself the supply
+    is exactly unchanged. *)
+Theorem C05_supply_exact_when_whole_unibi :
+  forall e, env_wf e -> forall b t, nonneg (bal b) -> tx_wf e t -> snd (deliver e b t) = Ok ->
+  whole_unibi t = true -> supply (fst (deliver e b t)) = supply b.
+Proof. exact exact_when_whole. Qed.
+Print Assumptions C05_supply_exact_when_whole_unibi.
+
+(** The signer's net gas payment equals the fee collector's gain and obeys the bounds. *)
+Theorem C05_payer_equals_collector :
+  forall e, env_wf e -> forall b t, nonneg (bal b) -> tx_wf e t ->
+  snd (deliver e b t) = Ok \/ snd (deliver e b t) = VmErr ->
+  let b' := fst (deliver e b t) in
+  let net := bal b' (e_collector e) - bal b (e_collector e) in
+  let p := eff_price (t_fee t) (e_base_fee e) in
+  0 <= net <= prepay (t_gas t) p /\ WEI * net - WEI < t_gas_used t * p < WEI * net + WEI /\
+  (snd (deliver e b t) = Ok -> untouched (e_signer e) t = true ->
+   bal b (e_signer e) - bal b' (e_signer e) - to_native (t_value t) = net).
+Proof. exact payment_bounds. Qed.
+Print Assumptions C05_payer_equals_collector.
+
+(** A tx that fails after the ante handler or reverts changes nothing except the signer's payment
+    to the collector (the nonce is C07's); a failure before a response costs the prepayment. *)
+Theorem C05_failed_tx_changes_only_fee_and_nonce :
+  forall e, env_wf e -> forall b t, nonneg (bal b) -> tx_wf e t ->
+  snd (deliver e b t) = VmErr \/ snd (deliver e b t) = MsgErr ->
+  let b' := fst (deliver e b t) in
+  let net := bal b' (e_collector e) - bal b (e_collector e) in
+  bal b' (e_signer e) - bal b (e_signer e) = - net /\
+  0 <= net <= prepay (t_gas t) (eff_price (t_fee t) (e_base_fee e)) /\
+  (forall a, In a (e_universe e) -> a <> e_signer e -> a <> e_collector e -> bal b' a = bal b a) /\
+  supply b' = supply b.
+Proof. exact failed_tx_changes_only_fee. Qed.
+Print Assumptions C05_failed_tx_changes_only_fee_and_nonce.
+
+(** The boolean checker evaluated on implementation measurements is sound for [P]. *)
 Theorem C05_checker_sound : forall m, Pb m = true -> P m.
 Proof. exact Pb_sound. Qed.
 Print Assumptions C05_checker_sound.
